@@ -24,8 +24,9 @@ def run(tier, seed, verdict):
             "outcome_self_deregistration_inside_callback", "outcome_sibling_destroyed_from_callback",
             "outcome_second_requester_lost"]
     missing = [k for k in need if not outcomes.get(k)]
-    if missing or not res.hooks.get("101"):
-        raise core.HarnessFailure("stoptok observed none of: %s (hooks=%s)" % (missing, res.hooks))
+    if not res.hooks.get("101"):
+        missing = missing + ["hook 101"]
+    core.require_observed(verdict, missing, "stoptok")
     cov = {
         "evaluations": st.get("histories", 0),
         "distinct_nontrivial": sum(1 for v in outcomes.values() if v) + len([h for h in res.hooks.values() if h]),
